@@ -18,8 +18,9 @@ ASSUMPTIONS = [
     "with their flags, an invalidated INFO_TS carries TIME_INVALID, at most 65536 submessages",
     "DATA_FRAG payload is compared as the byte slice `SerializedDataFragment::as_ref()` (the Rust struct also "
     "holds the backing buffer and range, which differ by construction between writer and reader)",
-    "INFO_REPLY without multicast flag only (finding D-wire-2); the repository never builds INFO_REPLY, INFO_SRC, "
-    "HEARTBEAT_FRAG or PAD itself, they are included because their writers exist",
+    "INFO_REPLY carries multicast locators only with its MulticastFlag (written since fixes/D-wire-2.patch; finding "
+    "D-wire-2 on a tree without it); the repository never builds INFO_REPLY, INFO_SRC, HEARTBEAT_FRAG or PAD itself, "
+    "they are included because their writers exist",
 ]
 D14 = "submessage-length-truncated-to-u16"
 DW2 = "info-reply-multicast-flag-not-written"
@@ -76,7 +77,7 @@ def cause_of(m):
 
 
 def oracle(case, out):
-    op = case.lines[0].split()[0].removesuffix("fix")
+    op = case.lines[0].split()[0].split("@")[0]
     if "msg" not in (case.meta or {}):     # replay: the op line carries the message
         case.meta = {"msg": W.parse_spec(case.lines[0].split()[2 if op == "decx" else 1:])}
     m = case.meta["msg"]
@@ -195,7 +196,7 @@ LEVEL_TEXT = ("Kernel-checked Lean theorems over ALL well-formed messages of the
               "independent Python encoder.")
 LEVEL_NOTE = ("Trusted: Lean kernel; hand-written model Model/Wire.lean (bytes as Nat, fixed-width casts explicit); the "
               "differential harness over the public doc-hidden rtps_messages API; Python encoder used by the oracle. "
-              "Excluded by hypothesis: submessage elements >= 65536 octets (finding D14), INFO_REPLY with multicast "
-              "flag (finding D-wire-2).")
+              "Excluded by hypothesis: submessage elements >= 65536 octets (finding D14). INFO_REPLY with multicast "
+              "flag is covered since fixes/D-wire-2.patch (C08_info_reply_flag_counterexample is the regression witness).")
 TECHNIQUE = "Lean 4 theorems (round trip by structural induction, bit-level extensionality for the bitmaps) + differential correspondence with the real codec"
 DESIGN_REF = "DESIGN.md section 5 C08"
